@@ -107,7 +107,8 @@ func BuildMethodMap(structs []core_domain.CodeDataStruct) map[string][]string {
 	for _, clz := range structs {
 		for _, method := range clz.Functions {
 			methodName := method.BuildFullMethodName(clz)
-			methodMap[methodName] = method.GetAllCallString()
+			// overloads share one full name: their callees add up
+			methodMap[methodName] = append(methodMap[methodName], method.GetAllCallString()...)
 		}
 	}
 
